@@ -50,4 +50,14 @@ ts size_2(const tensor_dims_t<2>& d) { return size(d); }
 ts size_3(const tensor_dims_t<3>& d) { return size(d); }
 ts size_4(const tensor_dims_t<4>& d) { return size(d); }
 ts size_5(const tensor_dims_t<5>& d) { return size(d); }
+// ---- make_dims / cat_dims (ranks 1..4 / source ranks 1..4)
+auto make_dims_1(ts a) { return make_dims(a); }
+auto make_dims_2(ts a, ts b) { return make_dims(a, b); }
+auto make_dims_3(ts a, ts b, ts c) { return make_dims(a, b, c); }
+auto make_dims_4(ts a, ts b, ts c, ts e) { return make_dims(a, b, c, e); }
+auto make_dims_5(ts a, ts b, ts c, ts e, ts f) { return make_dims(a, b, c, e, f); }
+auto cat_dims_1(ts n, const tensor_dims_t<1>& d) { return cat_dims(n, d); }
+auto cat_dims_2(ts n, const tensor_dims_t<2>& d) { return cat_dims(n, d); }
+auto cat_dims_3(ts n, const tensor_dims_t<3>& d) { return cat_dims(n, d); }
+auto cat_dims_4(ts n, const tensor_dims_t<4>& d) { return cat_dims(n, d); }
 } // namespace nvdrv
